@@ -268,7 +268,7 @@ func clashWorld(r *Rng, base string) (*ModuleSpec, []string, []proto.GenScript) 
 		p := m.Pkgs[pi]
 		key := m.ImportPath(pi) + " " + p.Anchor
 		var parts []proto.Part
-		if len(p.Imports) == 2 && r.P(0.5) {
+		if len(p.Imports) == 2 && r.P(0.75) {
 			// one template whose two arguments are the first mention of two packages with the same last
 			// path element: which one gets the plain name is decided by their position in the text
 			parts = append(parts, proto.Part{Tmpl: fmt.Sprintf("\nvar ClashT%d_a @zz\n\nvar ClashT%d_b @aa\n", pi, pi),
